@@ -19,6 +19,8 @@
 // Excluded (reusex, class KF-C04-6/...): an EMPTY (zero-length, non-null) cell of an ascii / text / varchar / blob
 // column scanned into an unnamed `[]byte` destination: unmarshalVarchar's `append((*v)[:0], data...)` gives nil when
 // the destination was nil and an empty non-nil slice when it held a value (C04_cex_empty_cell_depends_on_history).
+// A UDT value with fewer fields than the type into a reused struct (KF-C04-7, repaired: the fields the value does not
+// carry are reset) is inside the specification: op reuse, class .../udt-short-value-resets-fields.
 package main
 
 import (
